@@ -17,7 +17,7 @@ RULE = ("Charts of all five games from rv/gen/charts.py in the C08 history class
 TOLERANCES = {}
 ASSUMPTIONS = ["snapshot comparison is the verdict", "positional slices and TimedList(list) are not documented as copies and are not probed for aliasing"]
 
-LIST_OPS = ["sorted", "sorted_rev", "append_item", "append_list", "after", "before", "between", "first", "last", "first_last", "move_start", "move_end",
+LIST_OPS = ["sorted", "sorted_rev", "append_item", "append_list", "append_to_empty", "after", "before", "between", "first", "last", "first_last", "move_start", "move_end",
             "time_diff", "deepcopy", "describe", "getint", "mask", "iter", "len", "to_numpy"]
 MAP_OPS = ["rate", "deepcopy", "describe", "stack", "convert", "write", "write_file", "full_ln", "dominant", "scroll", "normalize", "pattern", "hitsound"]
 CONV = {"osu": ["OsuToQua", "OsuToSM", "OsuToBMS"], "qua": ["QuaToOsu", "QuaToSM", "QuaToBMS"], "sm": ["SMToOsu", "SMToQua", "SMToBMS"],
@@ -74,12 +74,17 @@ def alias_probe(ctx, op, inp, result):
             for tl in lists:
                 if len(tl) == 0:
                     continue
-                tl.offset += 1.0
-                tl.df.iloc[0, list(tl.df.columns).index("offset")] = -12345.5
-                row = tl.df.iloc[0].tolist()
-                tl[0] = row
+                def attempt(f):
+                    try:
+                        f()
+                    except Exception:
+                        ctx.counters["c14.alias|mutation_path_raised"] += 1
+
+                attempt(lambda: setattr(tl, "offset", tl.offset + 1.0))
+                attempt(lambda: tl.df.iloc.__setitem__((0, list(tl.df.columns).index("offset")), -12345.5))
+                attempt(lambda: tl.__setitem__(0, tl.df.iloc[0].tolist()))
                 if "column" in tl.df.columns:
-                    tl.df["column"] = tl.df["column"].to_numpy() * 0 + 1
+                    attempt(lambda: tl.df.__setitem__("column", tl.df["column"].to_numpy() * 0 + 1))
                 for c in tl.df.columns:
                     arr = tl.df[c].to_numpy()
                     if arr.dtype.kind == "f" and arr.flags.writeable:
@@ -144,6 +149,8 @@ def run(ctx, case):
                         res = tl.append(tl[0], sort=r.random() < 0.5)
                 elif name == "append_list":
                     res = tl.append(tl, sort=r.random() < 0.5)
+                elif name == "append_to_empty":
+                    res = type(tl)([]).append(tl, sort=r.random() < 0.3)
                 elif name == "after":
                     res = tl.after(x, include_end=r.random() < 0.5)
                 elif name == "before":
